@@ -160,6 +160,16 @@ C19(pre, e, post, line) ==
                IN Chk("C19", "emissions_proportional_to_size_time_rate", line,
                       RGe(dE, RZero) /\ RLe(dE, RAdd(bound, RMul(TINY, RAdd(ROne, bound)))),
                       [acct |-> an, bank |-> a.bal[i].bank, ev |-> e.ev, de_num |-> dE[1], de_den |-> dE[2], bound_num |-> bound[1], bound_den |-> bound[2]])
+  \* "in proportion to ... time": the time a position accrues for runs from its last interaction, so every instruction
+  \* that works on a position restarts that position's clock, whether or not the position was earning at that moment
+  /\ (e.ev \in {"deposit", "withdraw", "borrow", "repay", "settle_emissions"} /\ Ok(e) /\ Has(e.a, "acct") /\ Has(e.a, "bank") /\ Has(post.accts, e.a.acct)) =>
+       LET a2 == post.accts[e.a.acct] IN
+       \A j \in ActiveSlots(a2) :
+         \* (an instruction that returns before touching the position, e.g. a deposit of nothing, is no interaction)
+         (a2.bal[j].bank = e.a.bank /\ (e.ev = "settle_emissions" \/ ~Has(pre.accts, e.a.acct)
+            \/ PosBits(pre.accts[e.a.acct], e.a.bank, "a") # PosBits(a2, e.a.bank, "a") \/ PosBits(pre.accts[e.a.acct], e.a.bank, "l") # PosBits(a2, e.a.bank, "l"))) =>
+           Chk("C19", "position_clock_restarts_at_every_interaction", line, a2.bal[j].lu = post.clock.ts,
+               [acct |-> e.a.acct, bank |-> e.a.bank, ev |-> e.ev, last_update |-> a2.bal[j].lu, now |-> post.clock.ts])
   /\ (e.ev \in {"withdraw_emissions", "withdraw_emissions_perm"} /\ Ok(e) /\ Has(pre.banks, e.a.bank) /\ Has(pre.accts, e.a.acct)) =>
        LET bn == e.a.bank b == pre.banks[bn] a == pre.accts[e.a.acct]
            ev_vault == bn \o ".emis_vault." \o b.emis_mint
